@@ -34,7 +34,7 @@ class Prop(BaseProp):
             "(kind, separator, precision, shape, flags)")
     budget = {"quick": 3000, "thorough": 1000000}
     must_see = ["roundtrip", "precision_17", "precision_1", "empty_train_kept", "empty_train_dropped", "comment_lines", "unsorted_line",
-                "from_string", "timeseries", "timeseries_1xc", "timeseries_rx1", "timeseries_zero_row", "timeseries_nondyadic",
+                "from_string", "from_string_repeated_time", "timeseries", "timeseries_1xc", "timeseries_rx1", "timeseries_zero_row", "timeseries_nondyadic",
                 "scalar_edge", "numpy_scalar_edge", "last_train_empty"] + ["sep:%r" % s for s in SEPS]
     arm_files = [("pyspike/spikes.py", ["spike_train_from_string", "load_spike_trains_from_txt", "import_spike_trains_from_time_series",
                                          "save_spike_trains_to_txt"]), ("pyspike/SpikeTrain.py", None)]
@@ -155,6 +155,10 @@ class Prop(BaseProp):
         ctx.count("sep:%r" % sep)
         s = [t for t in case["trains"][0]]
         r2 = random.Random(case["seed"])
+        if s and r2.random() < 0.3:
+            # a string may list a time more than once: "exactly the listed times"
+            ctx.count("from_string_repeated_time")
+            s = s + [r2.choice(s)]
         toks = [repr(t) for t in s]
         if case["shuffle"]:
             r2.shuffle(toks)
